@@ -58,7 +58,7 @@ Inductive sub :=
 
 Record hcfg := mkCfg {
   woi : bool;        (* HybridCachePolicy::WriteOnInsertion (else WriteOnEviction) *)
-  admit : bool;      (* the admission filter admits this key *)
+  accepts : bool;      (* the admission filter admits this key *)
   reins : bool;      (* the reinsertion filter admits this key *)
   tomb : bool;       (* tombstone log enabled *)
   foc : bool;        (* flush_on_close *)
@@ -126,7 +126,7 @@ Definition store_delete (s : kst) : kst := engine_delete (set_keep s None).
 
 (* store.enqueue(piece, force = false) *)
 Definition store_enqueue (c : hcfg) (s : kst) (v : N) (a : age) : kst :=
-  if admit c then
+  if accepts c then
     match a with
     | Young =>
         (* keeper.insert(piece) then engine.enqueue returns early: the reference is dropped at once *)
